@@ -18,8 +18,9 @@ CHECKS = {
         "sequences, nested sequences, sets, quantities, sequences of hash-equal elements of different types (1, 1.0, "
         "True), long sequences/strings that force line wrapping) with ONE symbolic leaf: every string of length "
         "0-2 (quick; 0-3 thorough; 'single' shape one longer) over the dialect's alphabet, an integer |i| <= 10^3/10^6, "
-        "a finite float in positional repr form, dates/times/datetimes with all fields symbolic, strings shaped like "
-        "numbers and times; 14 encoder configurations (indent, width incl. SYMBOLIC widths in [30,100] and in [1,14] - "
+        "a finite float in positional repr form or of an exponent-form shape (both signs, magnitudes on both sides of the "
+        "points where repr() switches notation), dates/times/datetimes with all fields symbolic, strings shaped like "
+        "numbers and times; in the thorough tier also a module of 121 blocks and one nested 110 levels deep; 14 encoder configurations (indent, width incl. SYMBOLIC widths in [30,100] and in [1,14] - "
         "every statement longer than the line - running the stdlib textwrap on proxies, newline, end-name, delimiter, "
         "PDS3 options). Assertion: "
         "encode refuses with ValueError/TypeError, or the strict load equals the spec-side normalisation of the "
@@ -33,7 +34,7 @@ CHECKS = {
         "engine, '#' comments / NUL reserved / '+' unreserved / both sign positions / the empty-value repair hooks "
         "are real code on the path; additionally module.errors must be []. Oracle = C01's normalisation composed "
         "with the default loader's documented ones (folding of quoted strings, dash + line end + following white "
-        "space removed, naive -> UTC). Same bounds as C01.",
+        "space removed, naive -> UTC). Same bounds as C01; the 121-block and the 110-level shapes run in the quick tier too.",
    ref='5 (C02)', technique='symbolic execution (symx) of encoder + default loader on a symbolic leaf; z3; bounded'),
  'C03': dict(
    text="Bounded symbolic execution of the real lexer, parser and decoders on spelling templates with symbolic parts, "
@@ -51,8 +52,9 @@ CHECKS = {
         "digit strings, several non-trivial values per label, magnitude of reals (text only).",
    ref='5 (C03)', technique='symbolic execution (symx) of lexer+parser+decoder on spelling templates with symbolic parts; spec-side expected values in LIA; z3'),
  'C04': dict(
-   text="Bounded symbolic execution of the real loaders on three token lists (27/24/26 tokens: all simple-value kinds, "
-        "sequence, set, units, blocks with begin/end names, based/signed/temporal/real values) whose inter-token gaps "
+   text="Bounded symbolic execution of the real loaders on five token lists (17-27 tokens: all simple-value kinds, "
+        "sequence, set, units, blocks with begin/end names, based/signed/temporal/real values, quoted strings spanning "
+        "lines) whose inter-token gaps "
         "in a sliding window are SYMBOLIC separators: runs of 0 (only where the grammar makes white space optional), "
         "1 or 2 characters each any of the six white-space characters, a comment /* c */ or /* cd */ with FREE symbolic "
         "inner characters (only the terminator '*/' itself excluded) with or without symbolic white space around it, and "
@@ -94,7 +96,8 @@ CHECKS = {
         "keyword, a delimiter ...), leap-second times with symbolic digits (with fraction, with a date in a "
         "symbolic year), block keywords in every letter case, missing values in seven positions with symbolic "
         "layout, units on a sequence / set, based integers and reals in non-canonical spellings, 14 value shapes with "
-        "symbolic digits (zoned and fractional times, day-of-year dates, reals whose repr uses an exponent); four encoders. "
+        "symbolic digits (zoned and fractional times, day-of-year dates, reals whose repr uses an exponent), same-named "
+        "sibling groups of which a later one is not a valid PDS3 group; four encoders. "
         "Assertions: the second load equals the spec-side normalisation of the first (C01/C02 oracle for the "
         "encoder's dialect), its errors list is empty, and the two dumps are identical strings; encoder refusal is "
         "allowed. The D35 class (see C05) is assumed away. Outside: corpus files, longer values.",
@@ -220,8 +223,9 @@ CHECKS = {
         "length 0-2 / 0-3) for the stage/predicate consistency obligations and length 0-4 / 0-6 for the "
         "writer obligation; plus every letter-case spelling of 19 keyword-like words and every digit assignment "
         "of 23 numeric/temporal shapes. Obligations: decode_simple_value equals the documented cascade of the "
-        "separately callable stages; Token.is_* agree with the stages, are pairwise exclusive, and numeric/temporal "
-        "text is never an unquoted string or parameter name; encode_string(s) returns s bare only if it decodes to "
+        "separately callable stages; Token.is_* agree with the stages, are pairwise exclusive, numeric/temporal "
+        "text is never an unquoted string or parameter name, and a begin keyword (per-dialect table: ISIS has no BEGIN_ "
+        "forms), END, a comment or a delimiter is never a parameter name or a simple value; encode_string(s) returns s bare only if it decodes to "
         "the identical str and otherwise a quoted form that decodes to s (modulo ODL white-space folding) or raises "
         "ValueError. Outside: longer free strings, dateutil (absent).",
    ref='5 (C17)', technique='symbolic execution (symx) of pvl.decoder/token/encoder with z3 deciding every branch; bounded string length'),
